@@ -4,7 +4,13 @@
 pub mod corpus;
 pub mod net;
 pub mod p28;
+pub mod p29;
 pub mod p30;
+pub mod p31p;
+pub mod p32;
+pub mod p33;
+pub mod p34p;
+pub mod p39p;
 pub mod sched;
 
 use simcore::runner::{Engine, Prop, Scenario};
@@ -96,6 +102,22 @@ fn main() {
             required_probes: &["empty_tick", "multi_item_batch_and_several_ticks", "net_delay", "two_messages_in_flight"],
         },
         Prop {
+            id: "C29",
+            scenarios: scenarios!(p29),
+            quick_runs: 200_000,
+            thorough_runs: 20_000_000,
+            rule: "each run picks one corpus flow with a totally ordered output (map/filter/flat_map_ordered/enumerate/scan/limit/unique/partition/bounded-side joins/TCP hops) or a keyed stream whose per-key order is made observable by an ordered per-key fold (per-key vec/scan/enumerate+limit/fold/reduce/first, cluster->process per member, process->cluster demux), draws input items (<= 12) and executes it under two independently seeded schedules: tick partition, network schedule and - for keyed inputs - two different cross-key interleavings of the same per-key subsequences; keyed flows run a third time with only one key's items. Distinct = distinct hash of (entry, realised decision trace); non-trivial = at least one item flowed AND the two runs differ in partition, interleaving or network schedule.",
+            time_unit: "ticks",
+            real: REAL,
+            stubs: STUBS_NET,
+            assumptions: &[
+                "sampled schedules and interleavings, not exhaustive; <= 12 input items, <= 4 keys, cluster size 2",
+                "the per-key order of a keyed stream is observed through an ordered (non-commutative) per-key fold, which is what the type promises to be deterministic; entries() of a keyed stream is typed NoOrder and compared as a set",
+                "TCP.fail_stop(): one FIFO wire per (sender, receiver) pair, no loss/duplication, arbitrary delay and cross-pair interleaving",
+            ],
+            required_probes: &["cross_key_interleaving", "solo_key_run", "net_delay", "empty_tick"],
+        },
+        Prop {
             id: "C30",
             scenarios: scenarios!(p30),
             quick_runs: 400_000,
@@ -111,7 +133,84 @@ fn main() {
                 "where documentation leaves multiplicity/order open (anti_join on duplicate rows, join with several build matches) inputs are generated so that both readings agree",
             ],
             required_probes: &["empty_tick", "two_nonempty_batches", "multi_item_batch_and_several_ticks"],
-        }],
+        },
+        Prop {
+            id: "C32",
+            scenarios: scenarios!(p32),
+            quick_runs: 300_000,
+            thorough_runs: 30_000_000,
+            rule: "one corpus flow per library-internal assume_ordering_trusted / assume_retries_trusted call site (Stream::{max,min,first,last,count,is_empty,repeat_with_keys,weaken_ordering,make_totally_ordered,weaken_retries,make_exactly_once}, KeyedStream::{weaken_ordering,make_totally_ordered,weaken_retries,make_exactly_once,value_counts}, KeyedSingleton::{into_singleton x3 code paths, get_max_key}; top-level and in-tick variants), input typed as weakly as the public signature allows. Each run draws an input (<= 6 items per input), applies a seeded transformation admitted by that type (permutation for NoOrder; duplication for AtLeastOnce - anywhere if unordered, directly after the original if totally ordered; cross-key interleaving for keyed inputs with fixed per-key order) and a seeded tick partition. Distinct = distinct hash of (entry, realised decision trace); non-trivial = at least one item flowed AND (the input was actually permuted/duplicated/re-interleaved OR the partition is non-canonical).",
+            time_unit: "ticks",
+            real: REAL,
+            stubs: STUBS,
+            assumptions: &[
+                "permutations/duplications are sampled (inputs <= 6 items), not enumerated",
+                "a TotalOrder + AtLeastOnce stream is taken to admit only adjacent re-application of an element (the library's idempotence requirement: re-applying an element leaves the state unchanged); NoOrder + AtLeastOnce admits copies anywhere",
+                "the embedded input is TotalOrder/ExactlyOnce; the weak type is obtained with the safe casts weaken_ordering / weaken_retries, which are themselves two of the call sites",
+                "hash-map iteration order inside the code under test is not controlled by this engine (E7 owns hash seeds); cross-key interleaving varies insertion order only",
+            ],
+            required_probes: &["input_permuted", "input_duplicated", "cross_key_interleaving", "empty_tick"],
+        },
+        Prop {
+            id: "C33",
+            scenarios: scenarios!(p33),
+            quick_runs: 200_000,
+            thorough_runs: 20_000_000,
+            rule: "each run picks one corpus flow producing a collection whose type promises monotone growth (count() and other Monotonic singletons, value_counts() = MonotonicValue, keyed folds/reduces = keys only added, keyed first() = BoundedValue observed as a map, counts behind a TCP hop, per-member keyed state), observed by a per-tick snapshot shim; draws inputs (<= 12 items incl. duplicates and late keys) and a seeded tick partition / network schedule and checks the whole per-tick history. Distinct = distinct hash of (entry, realised decision trace); non-trivial = at least one item flowed AND the schedule is non-canonical AND the history holds at least two distinct snapshots.",
+            time_unit: "ticks",
+            real: REAL,
+            stubs: STUBS_NET,
+            assumptions: &[
+                "sampled inputs and partitions, not exhaustive; <= 12 items, <= 4 keys",
+                "only library-provided annotations are checked (count, value_counts, keyed first, key set growth); user-supplied `monotone = manual_proof!` annotations are the user's claim, not the library's",
+                "the snapshot shim observes one value per tick; changes within a tick are not observable in production code",
+            ],
+            required_probes: &["history_with_3_distinct_snapshots", "empty_tick", "net_delay"],
+        },
+        Prop {
+            id: "C31p",
+            scenarios: scenarios!(p31p),
+            quick_runs: 100_000,
+            thorough_runs: 10_000_000,
+            rule: "secondary (production) leg of C31: each run picks one sliced! corpus program (use::batch on a stream / keyed stream / bounded-value keyed singleton, use::snapshot on count() and on a keyed singleton, use::state and use::state_null) compiled by the production code generator, draws input items (<= 10) and a seeded partition into slices incl. empty slices. Non-trivial = at least one item flowed AND the partition is non-canonical.",
+            time_unit: "ticks",
+            real: REAL,
+            stubs: STUBS,
+            assumptions: &["production back end only: one slice per tick, hooks of one slice are evaluated in the same tick; the simulator-side (independent hook decisions) leg belongs to E5"],
+            required_probes: &["two_nonempty_slices", "empty_tick"],
+        },
+        Prop {
+            id: "C34p",
+            scenarios: scenarios!(p34p),
+            quick_runs: 100_000,
+            thorough_runs: 10_000_000,
+            rule: "secondary (production) leg of C34: the documented atomic counter / keyed counter pattern (atomic() write path, ack through end_atomic(), reads through a sliced! atomic snapshot) plus the non-atomic variant, production-generated; each run draws uniquely numbered increments and reads and a seeded partition of both into ticks; the history is stamped with tick indices. Non-trivial = increments and reads flowed, the partition is non-canonical AND at least one read was sent in a tick after an observed acknowledgement.",
+            time_unit: "ticks",
+            real: REAL,
+            stubs: STUBS,
+            assumptions: &[
+                "single-location production code runs a tick synchronously, so the stale-read race of the non-atomic variant is NOT reachable here (it is reachable only in the repository simulator, E5): the negative control cannot fire in this engine and is not required as a probe",
+                "write path through a network hop is not built for this leg",
+            ],
+            required_probes: &["read_sent_after_an_observed_ack", "empty_tick"],
+        },
+        Prop {
+            id: "C39p",
+            scenarios: scenarios!(p39p),
+            quick_runs: 100_000,
+            thorough_runs: 10_000_000,
+            rule: "secondary (production) leg of C39: hydro_std::quorum::collect_quorum / collect_quorum_with_response for (min,max) in {(1,1),(2,2),(2,3),(3,3),(1,3)} (ordered and one unordered instantiation) and request_response::join_responses, production-generated; each run draws a response sequence over <= 3 keys with at most max responses per key and an Ok/Err mix and runs it all-at-once and under a seeded tick partition (for join_responses: metadata registered no later than the response's tick). Non-trivial = at least one response flowed AND the partition is non-canonical.",
+            time_unit: "ticks",
+            real: &["hydro_std::quorum, hydro_std::request_response (sliced! with use::state_null carry-over)", "hydro_lang production code generation (generate_embedded) + generated DFIR + dfir_rs"],
+            stubs: STUBS,
+            assumptions: &[
+                "at most max responses per key (documented contract); join_responses: one response per request, metadata registered before or in the tick of the response",
+                "collect_quorum_with_response with min < max: which surplus successes are passed depends on arrival batching, so only the reported key set, payload provenance/order per key and count >= min are compared there",
+                "the relative order of different keys in the (TotalOrder-typed) output of collect_quorum_with_response is not compared: see FINDINGS.md",
+            ],
+            required_probes: &["quorum_reached_across_batches", "response_in_later_tick", "empty_tick"],
+        },
+        ],
     };
     simcore::runner::main(engine);
 }
